@@ -38,7 +38,7 @@ MANIFEST_ENTRY = {
  "level_note": "Trusted: Coq kernel (vm_compute for the finite theorems); extraction; the Rust harness wfcode, the OCaml driver "
                "and tools/codelib.py (native re-implementation of the checker). Literal parsing is an oracle of the builder model "
                "(lit_ok); data-operand kinds are checked on the real data objects only. The former finding C05-K1 (empty pending body "
-               "whose end instruction was skipped) is repaired in build.rs (b7aaffe) and its inputs stay in the corpus; C05-K2 is not reachable from source text.",
+               "whose end instruction was skipped) is repaired in build.rs (b7aaffe) and its inputs stay in the corpus; C05-K2 (a conditional or else-chain linked directly as the left operand of && / ||) is PROVED empty on the whole operator fragment, with no bound on length or nesting (round 6: C05_reference_no_K2 - the reference tree keeps the climbing invariant that the root of a left operand binds at least as tightly as the operator taking it, and ?> !> |> are looser than && ||; C05_operator_expressions_not_K2 through C02_full and the Pratt bridge; C05_full_operator_expressions: every successful build of such a token list is well-formed with no exclusion); outside the fragment (side-effect brackets, annotations, blank-line separators, empty brackets) the exclusion of C05_full_parsed stays, the missing parser invariant is stated as C05_parser_links_no_K2_statement and proved to be exactly the gap (C05_no_K2_gives_wf_all_parsed), supported there by the exhaustive bounded theorems only.",
  "technique": "Coq proof (checker soundness, finite theorems by vm_compute, refutation witnesses) over executable models + "
               "differential correspondence with the Rust builder + native oracle on the real instruction streams"
 }
